@@ -1,12 +1,63 @@
 import GridVerif.Model.Proto
-import GridVerif.Model.Elem
+import GridVerif.Model.Aliasing
+import GridVerif.Gen.AngularCache
 
 namespace GridVerif.Driver.C19
-open GridVerif.Proto
+open GridVerif.Proto GridVerif.Aliasing GridVerif.Gen.AngularCache
 
-/-- Line-protocol handler of property C19: `C19.<op> args…` ↦ one answer line
-(`none` = malformed, answered `bad-op`). -/
+/-- abstract content of the shipped file for key `(method, degree)`; edits use values `< 1000` -/
+def sp (k : Key) : Nat := 1000 + 1000 * k.1 + k.2
+def sw (k : Key) : Nat := 500000 + 1000 * k.1 + k.2
+
+def parseOps : List String → Option (List Op)
+  | [] => some []
+  | "c" :: m :: dg :: sc :: uc :: rest => do
+    let m ← pNat m
+    let dg ← pNat dg
+    let sc ← pNat sc
+    let uc ← pNat uc
+    let tl ← parseOps rest
+    pure (Op.construct (m, dg) (sc != 0) (uc != 0) :: tl)
+  | "e" :: c :: v :: rest => do
+    let c ← pNat c
+    let v ← pNat v
+    let tl ← parseOps rest
+    pure (Op.edit c v :: tl)
+  | _ => none
+
+def showOut : Option Out → String
+  | some o => s!"{o.pCell} {o.wCell} {o.pVal} {o.wVal}"
+  | none => "-"
+
+def setB (cls : String) : Option (Option Float → Float → Option Float) :=
+  match cls with
+  | "LinearInfiniteRTransform" => some setMaxB_LinearInfiniteRTransform
+  | "ExpRTransform" => some setMaxB_ExpRTransform
+  | "PowerRTransform" => some setMaxB_PowerRTransform
+  | _ => none
+
 def handle : List String → Option String
+  | "C19.run" :: rest => do
+    let ops ← parseOps rest
+    let (st, outs) := run discipline sp sw init ops
+    let keys := st.cache.map (fun e => s!"{e.1.1} {e.1.2}")
+    pure ("ok " ++ String.intercalate " ; " (outs.map showOut) ++ " | " ++ String.intercalate " " keys)
+  | "C19.shipped" :: m :: dg :: [] => do
+    let m ← pNat m
+    let dg ← pNat dg
+    pure s!"ok {sp (m, dg)} {sw (m, dg)}"
+  | "C19.b" :: cls :: b0 :: rest => do
+    let f ← setB cls
+    let st : Option Float ← if b0 == "none" then some none else (pFloat b0).map some
+    let (mxs, tl) ← pVec pFloat rest
+    if tl ≠ [] then none else
+    -- state after each call
+    let (_, trace) := mxs.foldl (fun (acc : Option Float × List (Option Float)) mx =>
+      let s' := f acc.1 mx
+      (s', acc.2 ++ [s'])) (st, [])
+    pure ("ok " ++ String.intercalate " " (trace.map fun o => match o with | some v => sFloat v | none => "none"))
+  | ["C19.facts"] =>
+    pure s!"ok {discipline.pointsFreshPlain} {discipline.weightsFreshPlain} {discipline.pointsFreshScaled} {discipline.weightsFreshScaled} {coulombLoaderFresh}"
   | _ => none
 
 end GridVerif.Driver.C19
